@@ -35,3 +35,41 @@ pub mod tokio { pub mod net {
 pub mod info {
     pub struct ConnectionInfo<A> { pub local_addr: A, pub remote_addr: A }
 }
+
+// ---- tokio's TcpListener as the accept loop sees it (`pub use tokio::net::TcpListener` in stream/tcp.rs) ----
+// Prophecy form: `accept_outcome()` of the listener value AFTER the call is what that call answered (the same
+// vocabulary as the stand-in trait `Accept` of units accept / acceptor: polls counted, outcome recorded).
+#[verifier::external_type_specification]
+#[verifier::external_body]
+pub struct ExContext<'a>(std::task::Context<'a>);
+
+#[verifier::reject_recursive_types(T)]
+#[verifier::external_type_specification]
+pub struct ExPoll<T>(std::task::Poll<T>);
+
+#[verifier::external_body]
+pub struct TcpListener { _p: () }
+impl TcpListener {
+    pub uninterp spec fn accept_polls(&self) -> nat;
+    pub uninterp spec fn accept_outcome(&self) -> std::task::Poll<Result<(tokio::net::TcpStream, std::net::SocketAddr), std::io::Error>>;
+    /// tokio::net::TcpListener::poll_accept (inherent): one OS-level accept attempt
+    #[verifier::external_body]
+    pub fn poll_accept(&mut self, cx: &mut std::task::Context<'_>) -> (r: std::task::Poll<Result<(tokio::net::TcpStream, std::net::SocketAddr), std::io::Error>>)
+        ensures
+            final(self).accept_polls() == old(self).accept_polls() + 1,
+            r == final(self).accept_outcome(),
+    { unimplemented!() }
+    /// R5 leaves `self.get_mut()` of `self: Pin<&mut Self>` (Self: Unpin) in place: `Pin::get_mut` is the identity
+    /// on the reference
+    #[verifier::external_body]
+    pub fn get_mut(&mut self) -> (r: &mut TcpListener)
+        ensures *r == *old(self), *final(r) == *final(self),
+    { unimplemented!() }
+}
+
+/// `Poll<T>::map` (std): the closure is applied to a Ready value (through the closure's own contract)
+pub assume_specification<T, U, F: FnOnce(T) -> U> [std::task::Poll::<T>::map] (p: std::task::Poll<T>, f: F) -> (r: std::task::Poll<U>)
+    requires p matches std::task::Poll::Ready(v) ==> f.requires((v,)),
+    ensures
+        p is Pending ==> r is Pending,
+        p matches std::task::Poll::Ready(v) ==> (r matches std::task::Poll::Ready(u) && f.ensures((v,), u));
